@@ -20,12 +20,15 @@ from pbt.core import K, Out, Sub, is_err, sut
 from pbt.gen.util import sized_lists
 from pbt.oracle import iso
 
-RULE = ("histories of 1-4 documents (any mix of 9 syntaxes) parsed into a Graph or Dataset with pre-existing content incl. blank nodes; document "
+RULE = ("histories of 1-4 documents (any mix of 9 syntaxes) parsed into a Graph, a Dataset or one named graph of a Dataset with pre-existing content incl. blank nodes; document "
         "blank-node labels from {a, b, N0a1b...(looks like an rdflib id), <id of an existing node>}, reused between and within documents and "
-        "across named graphs of one document. Non-trivial = a label of the current document already occurs in the target (from an earlier "
-        "document or as existing BNode id); distinct by SHA-1 of the case JSON.")
-ASSUMPTIONS = ["documents use simple terms (IRIs, labelled blank nodes, plain literals): spelling variety is C05's subject",
-               "triple syntaxes parsed into a Dataset land in its default graph"]
+        "across named graphs of one document; up to two nodes per document written without a label ([ ], node element without id, node object "
+        "without @id) first in the text; RDF/XML node elements under alternating xml:base. Non-trivial = a label of the current document "
+        "already occurs in the target (from an earlier document or as existing BNode id); distinct by SHA-1 of the case JSON.")
+ASSUMPTIONS = ["documents use simple terms (IRIs, labelled and anonymous blank nodes, plain literals): spelling variety is C05's subject",
+               "triple syntaxes parsed into a Dataset land in its default graph",
+               "with a named graph of a Dataset as the sink, that graph stands for the document's default graph (as RDFLib's N-Quads and TriG "
+               "readers do); the document's named graphs keep their names"]
 
 DEF = ("d",)
 LABELS = ["a", "b", "N0a1b2c3d4e5f60718293a4b5c6d7e8f9", "x1"]
@@ -49,29 +52,65 @@ def gname_term(g):
     return None if g is None else (["b", g[2:]] if g.startswith("_:") else ["u", g])
 
 
-def write_doc(fmt, quads):
-    """quads: list of [s, p, o, gname]; triple formats ignore gname (caller passes None)"""
+ANON_FMTS = ("turtle", "n3", "trig", "xml", "json-ld")
+
+
+def anon_quads(anon, quad_fmt):
+    """the statements of the anonymous nodes of a document, the k-th node standing as the label anon<k> (no other label of the pool
+    looks like that): what the document says whichever way the node is written"""
+    out = []
+    for k, a in enumerate(anon):
+        me = ["b", f"anon{k}"]
+        g = a["g"] if quad_fmt else None
+        for p, o in a["props"]:
+            out.append([me, p, o, g])
+        if a["ref"]:
+            out.append([a["ref"][0], a["ref"][1], me, g])
+    return out
+
+
+def write_doc(fmt, quads, anon=(), xmlbase=False):
+    """quads: list of [s, p, o, gname]; triple formats ignore gname (caller passes None). anon: nodes written without a label where the
+    syntax has a form for that ([ ... ], a node element without rdf:about / rdf:nodeID, a node object without @id), first in the
+    document, so that documents of one shape have them at the same line and column; elsewhere they are the labels anon<k>."""
+    if fmt not in ANON_FMTS:
+        quads = anon_quads(anon, fmt in QUAD_FMTS) + quads
+        anon = ()
+
+    def bracket(a):
+        body = " ; ".join(f"{nt_term(p)} {nt_term(o)}" for p, o in a["props"])
+        return f"[ {body} ]" if not a["ref"] else f"{nt_term(a['ref'][0])} {nt_term(a['ref'][1])} [ {body} ]"
     if fmt in ("nt", "turtle", "n3"):
-        return "".join(f"{nt_term(s)} {nt_term(p)} {nt_term(o)} .\n" for s, p, o, g in quads)
+        return "".join(bracket(a) + " .\n" for a in anon) + "".join(f"{nt_term(s)} {nt_term(p)} {nt_term(o)} .\n" for s, p, o, g in quads)
     if fmt == "nquads":
         return "".join(f"{nt_term(s)} {nt_term(p)} {nt_term(o)}" + (f" {nt_term(gname_term(g))}" if g else "") + " .\n" for s, p, o, g in quads)
     if fmt == "trig":
         out = []
-        for g in dict.fromkeys(q[3] for q in quads):
-            body = "".join(f"  {nt_term(s)} {nt_term(p)} {nt_term(o)} .\n" for s, p, o, gg in quads if gg == g)
+        for g in dict.fromkeys([a["g"] for a in anon] + [q[3] for q in quads]):
+            body = "".join(f"  {bracket(a)} .\n" for a in anon if a["g"] == g)
+            body += "".join(f"  {nt_term(s)} {nt_term(p)} {nt_term(o)} .\n" for s, p, o, gg in quads if gg == g)
             out.append(("{\n" if g is None else f"{nt_term(gname_term(g))} {{\n") + body + "}\n")
         return "".join(out)
     if fmt == "xml":
         def node_attr(t, about="rdf:about"):
             return f'{about}="{t[1]}"' if t[0] == "u" else f'rdf:nodeID="{t[1]}"'
         rows = []
-        for s, p, o, g in quads:
+
+        def prop(p, o):
             ns, local = p[1].rsplit("/", 1)
             if o[0] == "l":
-                inner = f'<x:{local} xmlns:x="{ns}/">{o[1]}</x:{local}>'
-            else:
-                inner = f'<x:{local} xmlns:x="{ns}/" {node_attr(o, "rdf:resource")}/>'
-            rows.append(f"<rdf:Description {node_attr(s)}>{inner}</rdf:Description>")
+                return f'<x:{local} xmlns:x="{ns}/">{o[1]}</x:{local}>'
+            return f'<x:{local} xmlns:x="{ns}/" {node_attr(o, "rdf:resource")}/>'
+        for a in anon:
+            el = "<rdf:Description>" + "".join(prop(p, o) for p, o in a["props"]) + "</rdf:Description>"
+            if a["ref"]:
+                ns, local = a["ref"][1][1].rsplit("/", 1)
+                el = f'<rdf:Description {node_attr(a["ref"][0])}><x:{local} xmlns:x="{ns}/">{el}</x:{local}></rdf:Description>'
+            rows.append(el)
+        for n, (s, p, o, g) in enumerate(quads):
+            # xml:base scopes relative IRI references, not rdf:nodeID: the same label under two bases is one node
+            base = f' xml:base="http://ex.org/base{n % 2}/"' if xmlbase else ""
+            rows.append(f"<rdf:Description {node_attr(s)}{base}>{prop(p, o)}</rdf:Description>")
         return '<?xml version="1.0"?>\n<rdf:RDF xmlns:rdf="http://www.w3.org/1999/02/22-rdf-syntax-ns#">\n' + "\n".join(rows) + "\n</rdf:RDF>\n"
     if fmt == "trix":
         def tx(t):
@@ -92,9 +131,17 @@ def write_doc(fmt, quads):
             return t[1] if t[0] == "u" else "_:" + t[1]
         def node(s, p, o):
             return {"@id": jid(s), p[1]: [{"@value": o[1]} if o[0] == "l" else {"@id": jid(o)}]}
+        def val(o):
+            return {"@value": o[1]} if o[0] == "l" else {"@id": jid(o)}
+
+        def anode(a):
+            d = {}
+            for p, o in a["props"]:
+                d.setdefault(p[1], []).append(val(o))
+            return d if not a["ref"] else {"@id": jid(a["ref"][0]), a["ref"][1][1]: [d]}
         top = []
-        for g in dict.fromkeys(q[3] for q in quads):
-            nodes = [node(s, p, o) for s, p, o, gg in quads if gg == g]
+        for g in dict.fromkeys([a["g"] for a in anon] + [q[3] for q in quads]):
+            nodes = [anode(a) for a in anon if a["g"] == g] + [node(s, p, o) for s, p, o, gg in quads if gg == g]
             if g is None:
                 top.extend(nodes)
             else:
@@ -130,18 +177,19 @@ def bnodes_of(tuples):
     return {x for t in tuples for x in t if iso.is_b(x)}
 
 
-def doc_tuples(quads, as_quads, hext=False):
+def doc_tuples(quads, as_quads, hext=False, default=DEF):
     out = set()
     for s, p, o, g in quads:
         ok = ("l", o[1], "http://www.w3.org/2001/XMLSchema#string" if hext else None, None) if o[0] == "l" else (o[0], o[1])
-        gk = DEF if (g is None or not as_quads) else (("b", g[2:]) if g.startswith("_:") else ("u", g))
+        gk = default if (g is None or not as_quads) else (("b", g[2:]) if g.startswith("_:") else ("u", g))
         out.add(((s[0], s[1]), (p[0], p[1]), ok, gk))
     return out
 
 
 def run(case):
     out = Out()
-    is_ds = case["target"] == "dataset"
+    is_ds = case["target"] in ("dataset", "dataset-graph")
+    into_named = case["target"] == "dataset-graph"
     with warnings.catch_warnings():
         warnings.simplefilter("ignore")
         target = Dataset() if is_ds else Graph()
@@ -159,18 +207,24 @@ def run(case):
             if quad_fmt and not is_ds:
                 continue
             quads = [[q[0], q[1], q[2], q[3] if quad_fmt else None] for q in doc["quads"]]
+            anon = [dict(a, g=a["g"] if quad_fmt else None) for a in doc.get("anon") or []]
             if fmt == "trix":
                 # an unnamed TriX <graph> is read as an anonymous named graph, not as the default graph: only named graphs are written
                 quads = [q for q in quads if q[3] is not None]
+                anon = [a for a in anon if a["g"] is not None]
+            written, wanon = quads, anon
+            quads = quads + anon_quads(anon, quad_fmt)
             if not quads:
                 continue
             labels = {t[1] for q in quads for t in q[:3] if t[0] == "b"} | {q[3][2:] for q in quads if q[3] and q[3].startswith("_:")}
             reuse = bool(labels & seen_labels)
-            text = write_doc(fmt, quads)
+            text = write_doc(fmt, written, wanon, xmlbase=bool(doc.get("xmlbase")))
             if K.skip("C12-hext-labels-kept-verbatim", fmt == "hext" and bool(labels), out):
                 continue
             old = content(target)
-            r = sut(lambda: target.parse(data=text, format=fmt))
+            # the sink: the container itself, or one named graph of the Dataset (which then stands for the document's default graph)
+            sink = target.graph(URIRef("http://ex.org/g1")) if into_named else target
+            r = sut(lambda: sink.parse(data=text, format=fmt))
             where = f"doc#{n} {fmt}: {text[:300]!r}"
             if is_err(r):
                 out.fail((fmt, "parse-raises", r.kind, r.site), f"{where}: {r!r}")
@@ -181,7 +235,7 @@ def run(case):
                          f"{where}: lost {sorted(old - new, key=repr)[:4]}")
                 return out
             added = new - old
-            D = doc_tuples(quads, is_ds and quad_fmt, hext=(fmt == "hext"))
+            D = doc_tuples(quads, is_ds and quad_fmt, hext=(fmt == "hext"), default=("u", "http://ex.org/g1") if into_named else DEF)
             if fmt == "hext":
                 added = {tuple(("l", k[1], "http://www.w3.org/2001/XMLSchema#string", None) if (k[0] == "l" and k[2] is None and k[3] is None) else k for k in t) for t in added}
             Dg = {t for t in D if not bnodes_of([t])}
@@ -207,6 +261,8 @@ def run(case):
             out.nontrivial |= reuse
             seen_labels |= labels
             out.cls("fmt:" + fmt, "reuse" if reuse else "no-reuse", "target:" + case["target"])
+            if wanon and fmt in ANON_FMTS:
+                out.cls("anonymous-node-syntax")
             # the same document into two fresh containers gives isomorphic results
             a, b = (Dataset() if is_ds else Graph()), (Dataset() if is_ds else Graph())
             ra, rb = sut(lambda: a.parse(data=text, format=fmt)), sut(lambda: b.parse(data=text, format=fmt))
@@ -220,8 +276,12 @@ def strategy(tier):
     term_s = st.one_of(st.sampled_from(IRIS).map(lambda i: ["u", i]), st.sampled_from(LABELS).map(lambda l: ["b", l]), st.sampled_from(LABELS[:2]).map(lambda l: ["b", l]))
     term_o = st.one_of(term_s, st.sampled_from(["v", "w"]).map(lambda s: ["l", s]))
     quad = st.tuples(term_s, st.sampled_from(PREDS).map(lambda p: ["u", p]), term_o, st.sampled_from(GNAMES)).map(list)
-    doc = st.fixed_dictionaries({"fmt": st.sampled_from(TRIPLE_FMTS + QUAD_FMTS), "quads": st.lists(quad, min_size=1, max_size=5, unique_by=repr)})
-    return st.fixed_dictionaries({"target": st.sampled_from(["graph", "dataset", "dataset"]), "pre_named": st.booleans(), "docs": sized_lists(doc, 1, 4)})
+    pred = st.sampled_from(PREDS).map(lambda p: ["u", p])
+    anon = st.fixed_dictionaries({"props": st.lists(st.tuples(pred, term_o).map(list), min_size=1, max_size=2, unique_by=repr),
+                                  "ref": st.one_of(st.none(), st.tuples(term_s, pred).map(list)), "g": st.sampled_from(GNAMES)})
+    doc = st.fixed_dictionaries({"fmt": st.sampled_from(TRIPLE_FMTS + QUAD_FMTS), "quads": st.lists(quad, min_size=1, max_size=5, unique_by=repr),
+                                 "anon": st.one_of(st.just([]), st.lists(anon, min_size=1, max_size=2)), "xmlbase": st.booleans()})
+    return st.fixed_dictionaries({"target": st.sampled_from(["graph", "dataset", "dataset", "dataset-graph"]), "pre_named": st.booleans(), "docs": sized_lists(doc, 1, 4)})
 
 
 SUBCHECKS = [Sub("histories", strategy, run, {"quick": 24000, "thorough": 400000})]
